@@ -27,7 +27,7 @@ PURE_STR_METHODS = {
     "translate", "join", "copy", "keys", "values", "items", "get",
 }
 PURE_BUILTINS = {"len", "str", "bytes", "int", "float", "bool", "min", "max", "abs", "hex", "ord", "chr", "list", "tuple", "set",
-                 "frozenset", "sorted", "reversed", "sum", "repr", "type", "iter", "next", "enumerate", "zip", "dict", "bytearray", "memoryview"}
+                 "frozenset", "sorted", "reversed", "sum", "repr", "type", "iter", "next", "enumerate", "zip", "dict", "bytearray", "memoryview", "getattr", "hasattr"}
 
 _fresh = itertools.count(1)
 
@@ -282,6 +282,8 @@ class TermRule(BaseRule):
         if not (isinstance(f, ast.Name) and f.id in ("any", "all") and len(node.args) == 1 and not node.keywords):
             return None
         g = node.args[0]
+        if (isinstance(g, (ast.GeneratorExp, ast.ListComp)) and len(g.generators) == 1 and not isinstance(g.generators[0].iter, (ast.Tuple, ast.List))):
+            return self._quantifier(it, st, node, g, f.id)
         if not (isinstance(g, (ast.GeneratorExp, ast.ListComp)) and len(g.generators) == 1 and not g.generators[0].ifs
                 and isinstance(g.generators[0].target, ast.Name) and isinstance(g.generators[0].iter, (ast.Tuple, ast.List))):
             return None
@@ -304,6 +306,41 @@ class TermRule(BaseRule):
         ast.fix_missing_locations(expr)
         res, raises = it.truth_fork(st, expr)
         return list(raises) + [Out("normal", s, const(b)) for s, b in res]
+
+    def _quantifier(self, it, st, node, g, which):
+        """any(E(x) for x in I) over a symbolic iterable: two outcomes - True with a witness `some(I)` on which E holds, False with
+        E failing on the generic element `each(I)` (the same element a `for x in I` loop uses);  all() dually."""
+        gen = g.generators[0]
+        vals, raises = it.eval(st, gen.iter)
+        outs = list(raises)
+        conds = list(gen.ifs)
+        body = g.elt
+        if conds:
+            guard = conds[0] if len(conds) == 1 else ast.BoolOp(op=ast.And(), values=conds)
+            body = ast.BoolOp(op=ast.And(), values=[guard, body]) if which == "any" else ast.BoolOp(op=ast.Or(), values=[ast.UnaryOp(op=ast.Not(), operand=guard), body])
+            ast.copy_location(body, node)
+            ast.fix_missing_locations(body)
+        for s0, itv in vals:
+            if (itv.kind == "tuple" and not itv.val) or (itv.kind == "const" and isinstance(itv.val, (tuple, str, bytes, frozenset)) and not itv.val):
+                outs.append(Out("normal", s0, const(which == "all")))
+                continue
+            I = term_of(itv)
+            for elem, keep in ((T("some", I), which == "any"), (T("each", I), which != "any")):
+                s = s0.copy()
+                if isinstance(gen.target, (ast.Tuple, ast.List)) and not any(isinstance(t, ast.Starred) for t in gen.target.elts):
+                    n = len(gen.target.elts)
+                    base = "some" if elem.startswith("some(") else "each"
+                    it.assign(s, gen.target, AV("tuple", tuple(tv(T(f"{base}{i}", I)) for i in range(n)), truth=True, none=False))
+                else:
+                    it.assign(s, gen.target, tv(elem))
+                res, r2 = it.truth_fork(s, body)
+                outs += r2
+                for s2, b in res:
+                    if b == keep:
+                        # any: witness satisfies -> True / generic fails -> False ; all: generic satisfies -> True / witness fails -> False
+                        s2.log(node, f"{which}(...) over {I[:40]} -> {keep if which == 'any' else not (not keep)}")
+                        outs.append(Out("normal", s2, const(keep if which == "any" else keep)))
+        return outs
 
     def call(self, it, st, node, recv, pos, kw):
         r = self.call_hook(it, st, node, recv, pos, kw)
@@ -339,7 +376,7 @@ class TermRule(BaseRule):
                 except Exception:
                     pass
             typ = f"builtins.{f.id}" if f.id in ("str", "bytes", "int", "float", "list", "tuple", "set", "frozenset", "dict", "bytearray") else None
-            return [Out("normal", st, AV("unk", sym=T(f.id, *[term_of(p) for p in pos], *kws), none=False, typ=typ))]
+            return [Out("normal", st, AV("unk", sym=T(f.id, *[term_of(p) for p in pos], *kws), none=None if f.id in ("getattr", "next") else False, typ=typ))]
         if isinstance(f, ast.Attribute) and isinstance(f.value, ast.Name) and f.value.id == "typing" and f.attr == "cast" and len(pos) == 2:
             return [Out("normal", st, pos[1])]
         return None
